@@ -124,6 +124,40 @@ theorem before_ineffective_in (eff ineff : Time)
   refine ⟨h, Or.inr ?_⟩
   unfold Time.lt Time.addSec; simp; omega
 
+/-- **No rounding**: an object dated before a (non-zero) effective date by *any* amount — one nanosecond is enough — is
+    outside the window. Dates are compared as full instants (seconds and nanoseconds), never rounded or truncated to
+    what DER can encode. -/
+theorem any_instant_before_effective_out (eff ineff t : Time) (hz : eff.isZero = false) (h : Time.lt t eff) :
+    checkEffective eff ineff t = false := by
+  have : ¬ (checkEffective eff ineff t = true) := by
+    rw [checkEffective_spec]
+    rintro ⟨h' | h', _⟩
+    · rw [hz] at h'; exact absurd h' (by simp)
+    · unfold Time.le at h'; unfold Time.lt at h; omega
+  simpa using this
+
+/-- … and an object dated before the ineffective date by any amount is still inside (when the effective date allows it) -/
+theorem any_instant_before_ineffective_in (eff ineff t : Time) (h : eff.isZero = true ∨ Time.le eff t) (hl : Time.lt t ineff) :
+    checkEffective eff ineff t = true := by
+  rw [checkEffective_spec]; exact ⟨h, Or.inr hl⟩
+
+/-- an object dated at or after a (non-zero) ineffective date by any amount is outside -/
+theorem any_instant_from_ineffective_out (eff ineff t : Time) (hz : ineff.isZero = false) (h : Time.le ineff t) :
+    checkEffective eff ineff t = false := by
+  have : ¬ (checkEffective eff ineff t = true) := by
+    rw [checkEffective_spec]
+    rintro ⟨_, h' | h'⟩
+    · rw [hz] at h'; exact absurd h' (by simp)
+    · unfold Time.le at h; unfold Time.lt at h'; omega
+  simpa using this
+
+/-- non-vacuity on sub-second instants: 400 ms and 1 ns before the effective second are outside, 1 ns before the
+    ineffective second is inside -/
+example :
+    checkEffective ⟨100, 0⟩ ⟨200, 0⟩ ⟨99, 600000000⟩ = false ∧ checkEffective ⟨100, 0⟩ ⟨200, 0⟩ ⟨99, 999999999⟩ = false
+    ∧ checkEffective ⟨100, 0⟩ ⟨200, 0⟩ ⟨199, 999999999⟩ = true ∧ checkEffective ⟨100, 0⟩ ⟨200, 0⟩ ⟨200, 1⟩ = false := by
+  decide
+
 /-- **The only instants of a linted object that the framework looks at** — directly or through any module function it
     calls (scope predicates, date helpers of package util) — **are the three window targets of the model**: a
     certificate's `NotBefore`, a CRL's `ThisUpdate`, an OCSP response's `NextUpdate`. No `NotAfter`, no embedded SCT
